@@ -17,6 +17,7 @@ Require Import V.Model.LogBase.
 Require Import V.Model.Broadcast.
 Require Import V.Model.BroadcastShow.
 Require Import V.Spec.Lossy.
+Require Import V.Spec.LossyJump.
 Require Import V.Oracle.C08Oracle.
 Require Import V.Proofs.BroadcastMem.
 Require Import V.Proofs.BroadcastInv.
@@ -248,6 +249,21 @@ Proof.
   - vm_compute. reflexivity.
   - vm_compute. split; [reflexivity|]. intros [H|[H|[H|[H|[]]]]]; discriminate H.
 Qed.
+
+(* lag jumps (Spec/LossyJump.v) are a harness device; without jumps the jump-aware runs and oracle are the plain ones *)
+Theorem C08_jump_free : forall m w hv cap c0 pre h,
+  jrun_history m w hv cap c0 pre (map JOp h) = run_history m w hv cap c0 pre h /\
+  sjrun_history cap c0 pre (map JOp h) = spec_history cap c0 pre h.
+Proof. intros. split; [apply jrun_plain|apply sjrun_plain]. Qed.
+Print Assumptions C08_jump_free.
+
+(* a receiver that slept through 2^32 + 8 bytes is told so (the distance must not be truncated either) *)
+Example C08_jump_example :
+  jrun_history Release W64 true 64 0 [] [JOp (Transmit 3841 (payload 1 5)); JOp Receive; JJump 4294967304 3842 (payload 2 3); JOp Receive; JOp Receive]
+    = [TxOk; Rx 0 (RMsg 3841 (payload 1 5)); TxOk; Rx 1 (RErr UnableToKeepUp); Rx 1 RNone] /\
+  holds_jseq 64 0 [] [JOp (Transmit 3841 (payload 1 5)); JOp Receive; JJump 4294967304 3842 (payload 2 3); JOp Receive; JOp Receive]
+    (map show_obs [TxOk; Rx 0 (RMsg 3841 (payload 1 5)); TxOk; Rx 1 (RErr UnableToKeepUp); Rx 1 RNone]) = true.
+Proof. split; vm_compute; reflexivity. Qed.
 
 (* the hex rendering used to transport observations loses nothing *)
 Theorem C08_hex_injective : forall a b, bytes_ok a -> bytes_ok b -> hex a = hex b -> a = b.
